@@ -205,6 +205,10 @@ def run_fol_program(prog):
     out = ["ok"] * len(lines)
     meta = {"ids": list(kb.order), "errors": [], "registered": sorted(kb.registered_ids()),
             "kinds": {i: type(kb.obj[i]).__name__ for i in kb.order}}
+    meta["quant"] = {i: {"free": list(kb.obj[i].free_vars), "kind": type(kb.obj[i]).__name__.lower(),
+                         "fg": bool(kb.obj[i].fully_grounded), "body": kb.idof[id(kb.obj[i].operands[0])],
+                         "world": [q(Fr(float(x))) for x in kb.obj[i].world]}
+                     for i in kb.order if type(kb.obj[i]).__name__ in ("Forall", "Exists")}
     ids = lambda l: ",".join(map(str, l)) if l else "-"
 
     def add_fact(i, g, lo, hi):
@@ -789,3 +793,154 @@ def run_c09(case):
     rec["meta"]["alpha"] = q(Fr(float(o.neuron.alpha)))
     rec["meta"]["kind"] = type(o).__name__.lower()
     return rec
+
+
+# ------------------------------------------------------------------ C12: interpretation-first quantified tables
+
+def unique_vars(desc, i, cache=None):
+    """variable tuple of formula i as the implementation orders it (first appearance over the operands)"""
+    cache = {} if cache is None else cache
+    if i in cache:
+        return cache[i]
+    p = next((p for p in desc["preds"] if p["id"] == i), None)
+    if p is not None:
+        return None
+    n = next(n for n in desc["nodes"] if n["id"] == i)
+    uv = []
+    for oid, vs in n["ops"]:
+        vs = vs if vs is not None else unique_vars(desc, oid, cache)
+        for v in vs:
+            if v not in uv:
+                uv.append(v)
+    if n["kind"] in ("forall", "exists"):
+        uv = [v for v in uv if v not in n["qvars"]]
+    cache[i] = uv
+    return uv
+
+
+def eval_formula(desc, i, env, atom, nc, weights):
+    """exact truth value of formula i under variable assignment env (dict var->const) and atom values;
+    quantifiers are read as the nested conjunction / disjunction over ALL constants (complete tables)."""
+    import exact
+    p = next((p for p in desc["preds"] if p["id"] == i), None)
+    n = next((n for n in desc["nodes"] if n["id"] == i), None)
+    k = n["kind"]
+    vals = []
+    for oid, vs in n["ops"]:
+        if any(pp["id"] == oid for pp in desc["preds"]):
+            vals.append(lambda e, oid=oid, vs=vs: atom[(oid, tuple(e[v] for v in vs))])
+        else:
+            vals.append(lambda e, oid=oid: eval_formula(desc, oid, e, atom, nc, weights))
+    if k == "not":
+        return 1 - vals[0](env)
+    if k in ("and", "or", "implies"):
+        w, b = weights[i]
+        xs = [f(env) for f in vals]
+        lo, hi = exact.act_up(k, w, b, xs, xs)
+        return lo
+    if k in ("forall", "exists"):
+        def nest(qv, e):
+            if not qv:
+                return vals[0](e)
+            # Forall(x, y, body) is Forall(x, Forall(y, body)): the first variable is the outermost
+            inner = [nest(qv[1:], dict(e, **{qv[0]: c})) for c in range(nc)]
+            if k == "forall":
+                return exact.clamp(1 - sum(1 - x for x in inner))
+            return exact.clamp(sum(inner))
+        return nest(list(n["qvars"]), env)
+    raise ValueError(k)
+
+
+def run_c12(case):
+    """complete tables around a drawn interpretation; the quantified roots get bounds around their value
+    (fully quantified ones via add_data); infer(); every fact must still contain the interpretation."""
+    import itertools
+    import impl
+    L = impl.lnn()
+    kbs = FolKB(case["kb"])         # structure / parameters only
+    weights = {}
+    for i in kbs.order:
+        o = kbs.obj[i]
+        if type(o).__name__ in ("And", "Or", "Implies"):
+            weights[i] = ([Fr(float(w)) for w in o.neuron.weights.detach().tolist()], Fr(float(o.neuron.bias)))
+    desc, nc = case["kb"], case["n_consts"]
+    atom = {(f[0], tuple(f[1])): f[2] for f in case["atoms"]}
+    rng = random.Random(case["seed"])
+    facts = []
+    for (pid, g), v in atom.items():
+        lo = Fr(rng.randint(0, int(v * 8)), 8) if rng.random() < 0.6 else ZERO
+        hi = Fr(rng.randint(-(-v * 8 // 1), 8), 8) if rng.random() < 0.6 else ONE
+        if rng.random() < 0.3:
+            lo = hi = v
+        facts.append((pid, list(g), lo, hi))
+    qfacts = []
+    qvals = {}
+    for n in desc["nodes"]:
+        if n["kind"] in ("forall", "exists") and n["id"] in desc["roots"]:
+            fv = unique_vars(desc, n["id"])
+            if not fv:                   # fully quantified: a proposition-like formula that accepts data
+                v = eval_formula(desc, n["id"], {}, atom, nc, weights)
+                qvals[n["id"]] = q(v)
+                r = rng.random()
+                if r < 0.5:
+                    lo, hi = v, v
+                elif r < 0.8:
+                    lo, hi = (Fr(int(v * 8), 8), ONE) if n["kind"] == "forall" else (ZERO, Fr(-(-v * 8 // 1), 8))
+                else:
+                    lo, hi = ZERO, ONE
+                if (lo, hi) != (ZERO, ONE):
+                    qfacts.append((n["id"], [], lo, hi))
+    prog = {"kb": desc, "facts": facts + qfacts, "ops": list(case["ops"])}
+    rec = run_fol_program(prog)
+    rec["meta"]["atom"] = {f"{pid}:{gtxt(g)}": q(v) for (pid, g), v in atom.items()}
+    rec["meta"]["qvals"] = qvals
+    rec["meta"]["qfacts"] = [(i, q(lo), q(hi)) for i, _, lo, hi in qfacts]
+    return rec
+
+
+def gen_c12_case(rng):
+    import itertools
+    npred = rng.randint(1, 2)
+    preds = [{"id": k, "arity": rng.choice([1, 1, 2]), "world": "open"} for k in range(npred)]
+    nodes, nid = [], npred
+    kind = rng.choice(["forall", "exists"])
+    high = kind == "forall"
+    if rng.random() < 0.6 or preds[0]["arity"] != 1:
+        # connective body over the predicates
+        ops = []
+        for p in preds:
+            vs = rng.sample(VARS[:2] if p["arity"] <= 2 else VARS, p["arity"])
+            ops.append([p["id"], vs])
+        if len(ops) == 1:
+            ops.append([preds[0]["id"], list(reversed(ops[0][1])) if preds[0]["arity"] == 2 else ops[0][1]])
+        body = {"id": nid, "kind": rng.choice(["and", "or", "implies"]) if len(ops) == 2 else rng.choice(["and", "or"]), "ops": ops}
+        nodes.append(body)
+        bvars = []
+        for _, vs in ops:
+            for v in vs:
+                if v not in bvars:
+                    bvars.append(v)
+        nid += 1
+        qbody = [body["id"], None]
+    else:
+        preds = preds[:1]
+        bvars = ["x"]
+        qbody = [preds[0]["id"], ["x"]]
+    m = rng.randint(1, len(bvars))
+    qv = list(bvars) if rng.random() < 0.6 else rng.sample(bvars, m)
+    qn = {"id": nid, "kind": kind, "ops": [qbody], "qvars": qv}
+    nodes.append(qn)
+    nc = rng.randint(2, 3)
+    atoms = []
+    for p in preds:
+        for g in itertools.product(range(nc), repeat=p["arity"]):
+            if high:
+                v = rng.choice([ONE, ONE, ONE, Fr(7, 8), Fr(3, 4), Fr(1, 2), ZERO])
+            else:
+                v = rng.choice([ZERO, ZERO, ZERO, Fr(1, 8), Fr(1, 4), Fr(1, 2), ONE])
+            atoms.append((p["id"], list(g), v))
+    ops = [("infer", 60)]
+    if rng.random() < 0.5:
+        ops = [("passup",), ("down", nid, None), ("infer", 60)]
+    return {"kb": {"preds": preds, "nodes": nodes, "roots": [nid]}, "atoms": atoms, "n_consts": nc,
+            "seed": rng.randrange(1 << 30), "ops": ops}
